@@ -171,9 +171,13 @@ func (nr *NativeRunner) run(c *ReplayCase) (*nativeResult, error) {
 		defer os.Remove(cf)
 		defer os.Remove(of)
 	}
-	ctx, cancel := context.WithTimeout(context.Background(), 60*time.Second)
+	limit, testLimit := 60*time.Second, "-test.timeout=50s"
+	if strings.HasPrefix(c.Label, "nontermination:") {
+		limit, testLimit = 20*time.Second, "-test.timeout=12s" // hang probe: the inputs are a few bytes, a run takes milliseconds
+	}
+	ctx, cancel := context.WithTimeout(context.Background(), limit)
 	defer cancel()
-	cmd := exec.CommandContext(ctx, nr.bin, "-test.run", "^TestVerifReplay$", "-test.count=1", "-test.timeout=50s")
+	cmd := exec.CommandContext(ctx, nr.bin, "-test.run", "^TestVerifReplay$", "-test.count=1", testLimit)
 	cmd.Dir = nr.dir
 	cmd.Env = append(os.Environ(), "VERIF_CASE="+cf, "VERIF_OUT="+of)
 	var stderr bytes.Buffer
@@ -298,9 +302,21 @@ func (nr *NativeRunner) confirm1(v *Violation) {
 		nr.confirmRace(v)
 		return
 	}
+	if strings.HasPrefix(v.Label, "nontermination:") {
+		v.Case.Label = v.Label // selects the short time limit of the hang probe
+	}
 	res, err := nr.run(v.Case)
 	if err != nil {
 		v.Confirmed, v.NativeOut = "not-run", err.Error()
+		return
+	}
+	if strings.HasPrefix(v.Label, "nontermination:") {
+		// only a native hang confirms it
+		if strings.HasPrefix(res.crash, "timeout (hang)") || strings.Contains(res.crash, "test timed out") {
+			v.Confirmed, v.NativeOut = "reproduced", "the native run of these inputs does not finish (killed after the hang probe's time limit)"
+		} else {
+			v.Confirmed, v.NativeOut = "not-reproduced", "the native run finishes: the loop needs a larger bound, not a verdict"
+		}
 		return
 	}
 	isPanic := strings.HasPrefix(v.Label, "panic:") || strings.HasPrefix(v.Label, "deadlock:")
